@@ -582,6 +582,54 @@ def packList (fmts : List String) (vals : List Val) : Except Err Bits :=
   | .error err => .error err
   | .ok toks => packTokens toks vals
 
+/-! ### multipliers and brackets in front of struct-style tokens (`2*<hB`, `2*(<hB,>q)`) -/
+
+/-- Split at the commas that are outside every bracket (`cur` = the current piece, reversed). -/
+def splitTop : List Char → Nat → List Char → List (List Char)
+  | [], _, cur => [cur.reverse]
+  | c :: cs, depth, cur =>
+    if c = ',' ∧ depth = 0 then cur.reverse :: splitTop cs 0 []
+    else if c = '(' then splitTop cs (depth + 1) (c :: cur)
+    else if c = ')' then splitTop cs (depth - 1) (c :: cur)
+    else splitTop cs depth (c :: cur)
+
+/-- The factor in front of a token or a bracket (`MULTIPLICATIVE_RE` `^(?P<factor>.*)\*(?P<token>.+)` with
+    `int(factor)`, `BRACKET_RE` `(?P<factor>\d+)\*\(`); no `*` = factor 1; `none` = `int()` fails. -/
+def factorOf (item : List Char) : Option (Nat × List Char) :=
+  let ds := item.takeWhile Char.isDigit
+  match item.drop ds.length with
+  | '*' :: rest =>
+    if ds.isEmpty ∨ rest.isEmpty then none
+    else some (ds.foldl (fun acc d => acc * 10 + (d.toNat - '0'.toNat)) 0, rest)
+  | _ => if item.contains '*' then none else some (1, item)
+
+/-- `expand_brackets` (utils.py) followed by the meta-token loop of `preprocess_tokens` (split at commas, empty
+    pieces skipped, `tokens * factor`), for well-nested input: the plain tokens in order.  A bracket with a factor is
+    its content repeated `factor` times (`','.join([content] * factor)`), a token with a factor is the token's
+    expanded list repeated `factor` times (hBhB, not hhBB). -/
+def expandFmtAux : Nat → List Char → Option (List String)
+  | 0, _ => none
+  | fuel + 1, cs =>
+    ((splitTop cs 0 []).mapM fun (item : List Char) =>
+      if item.isEmpty then some [] else
+      match factorOf item with
+      | none => none
+      | some (n, rest) =>
+        if rest.head? = some '(' ∧ rest.getLast? = some ')' then
+          (expandFmtAux fuel ((rest.drop 1).dropLast)).map fun l => (List.replicate n l).flatten
+        else some (List.replicate n (String.ofList rest))).map List.flatten
+
+/-- `preprocess_tokens(fmt)` for formats made of struct-style tokens: whitespace removed first. -/
+def expandFmt (fmt : String) : Option (List String) :=
+  let cs := fmt.toList.filter fun c => !c.isWhitespace
+  expandFmtAux (cs.length + 1) cs
+
+/-- `pack(fmt, *values)` for a format with multipliers / brackets / commas around struct-style tokens. -/
+def packM (fmt : String) (vals : List Val) : Except Err Bits :=
+  match expandFmt fmt with
+  | none => .error .value
+  | some toks => packList toks vals
+
 /-- `_read_dtype_list` (bits.py:1190) for fixed-length dtypes: read one after the other from `pos`. -/
 def readTokens : List (String × Nat) → Bits → Nat → Except Err (List Val)
   | [], _, _ => .ok []
@@ -604,6 +652,15 @@ def unpack (fmt : String) (b : Bits) : Except Err (List Val) :=
     match structparser e codes with
     | .error err => .error err
     | .ok toks => readTokens toks b 0
+
+/-- `Bits.unpack(fmt)` for the same formats. -/
+def unpackM (fmt : String) (b : Bits) : Except Err (List Val) :=
+  match expandFmt fmt with
+  | none => .error .value
+  | some toks =>
+    match listTokens toks with
+    | .error err => .error err
+    | .ok ts => readTokens ts b 0
 
 /-! ## byteswap -/
 
@@ -710,11 +767,15 @@ def parseNameLength (s : String) : Option (String × Option Nat) :=
     length is required.  Only the integer / float definitions are modelled: another known name is `type`
     (never generated). -/
 def setDtype (s : String) : Except Err DType :=
+  let nonZero (r : Except Err DType) : Except Err DType :=
+    match r with
+    | .ok d => if d.length = 0 then .error .value else .ok d    -- "A format with a non-zero length is needed"
+    | .error e => .error e
   let viaStruct : Except Err DType :=
     match parseSingleStructToken s with
     | none => .error .value                      -- "Inappropriate Dtype for Array"
     | some (.error e) => .error e
-    | some (.ok (name, len)) => mkDtype name len
+    | some (.ok (name, len)) => nonZero (mkDtype name len)
   match parseNameLength s with
   | none => viaStruct
   | some (name, olen) =>
@@ -723,7 +784,26 @@ def setDtype (s : String) : Except Err DType :=
     | some d =>
       match olen with
       | none => .error .value                    -- "A fixed length format is needed" (floats too: 3 allowed lengths)
-      | some len => if d.allows len then .ok ⟨d, len⟩ else viaStruct
+      | some len => if d.allows len then nonZero (.ok ⟨d, len⟩) else viaStruct
+
+/-- `dtype.bitlength` of an Array dtype string, for the integer / float definitions (through `setDtype`) and for the
+    other fixed-length families `Array.byteswap` can meet: `bytesN` (length in BYTES, `multiplier=8`), `hexN` (N bits,
+    multiples of 4), `octN` (multiples of 3), `binN`, `bitsN`, `boolN` (only 1).  `Array.byteswap` looks at nothing else
+    of the dtype. -/
+def itemBits (s : String) : Except Err Nat :=
+  match setDtype s with
+  | .ok d => .ok d.length
+  | .error e =>
+    match parseNameLength s with
+    | some (name, some len) =>
+      if len = 0 then .error .value
+      else if name = "bytes" then .ok (8 * len)
+      else if name = "hex" then (if len % 4 = 0 then .ok len else .error .value)
+      else if name = "oct" then (if len % 3 = 0 then .ok len else .error .value)
+      else if name = "bin" ∨ name = "bits" then .ok len
+      else if name = "bool" then (if len = 1 then .ok 1 else .error .value)
+      else .error e
+    | _ => .error e
 
 /-- `Array._create_element` (array_.py:172) for each item of `extend(iterable)` (array_.py:306-309). -/
 def arrayBuild (d : DType) : List Val → Except Err Bits
@@ -928,6 +1008,14 @@ def handle (args : List String) : String :=
     match valsOfWire? vals with
     | some vs => res (fun b => hexOfBytes (toBytes b)) (packList (fmts.splitOn ";") vs)
     | none => "bad-op"
+  | ["packm", fmt, vals] =>
+    match valsOfWire? vals with
+    | some vs => res (fun b => hexOfBytes (toBytes b)) (packM fmt vs)
+    | none => "bad-op"
+  | ["unpackm", fmt, hex] =>
+    match bytesOfWire? hex with
+    | some d => res valsToWire (unpackM fmt (bitsOfBytes d))
+    | none => "bad-op"
   | ["unpack", fmt, hex] =>
     match bytesOfWire? hex with
     | some d => res valsToWire (unpack fmt (bitsOfBytes d))
@@ -984,9 +1072,10 @@ def handle (args : List String) : String :=
   | ["aswap", dt, bits] =>
     match bitsOfStr? bits with
     | some b =>
-      res bitsToWire (match setDtype dt with
+      -- `Array.byteswap` uses only the dtype's bit length (= itemsize)
+      res bitsToWire (match itemBits dt with
         | .error e => .error e
-        | .ok d => arrayByteswap d b)
+        | .ok bl => arrayByteswap ⟨.uint, bl⟩ b)
     | none => "bad-op"
   | ["aext", dt, pre, tc, isz, vals] =>
     match valsOfWire? pre, tc.toList, isz.toNat?, valsOfWire? vals with
